@@ -55,3 +55,11 @@ From DVGen Require Import Gen_ccalls.
 Theorem C06_c_loops_call_row_then_column :
   forallb (fun t => snd t) c_matrix_calls = true /\ List.length c_matrix_calls = 10%nat.
 Proof. vm_compute. split; reflexivity. Qed.
+
+(* dtw.distance_matrix returns an empty result before computing anything in exactly ONE place (the translator pins the two
+   statements under `if block is not None:` and the set of return statements of the function), and the condition of that
+   early return - regenerated as py_dm_early_empty - is met only by blocks that select no pair at all. *)
+Theorem C06_early_empty_result_only_for_empty_selections : forall n blk, b_some blk = true -> valid_block n blk ->
+  py_dm_early_empty (fst (b_rows blk)) (snd (b_rows blk)) (fst (b_cols blk)) (snd (b_cols blk)) = true ->
+  pairs n blk = nil.
+Proof. exact early_empty_selects_nothing. Qed.
